@@ -46,6 +46,7 @@ class Agent:
     def __init__(self, engine=b"\x80\x00\x1f\x88\x80\x01\x02\x03\x04", boots=1, time=100):
         self.engine, self.boots, self.time = bytes(engine), boots, time
         self.salt = 0x0102030405060000
+        self.npad = 0          # DES replies rotate through the padding styles real agents use (zero / PKCS / 0xff / arbitrary)
 
     def reply(self, cfg, req, varbinds, ptype="response", reqid=None, msgid=None, community=None, user=None,
               engine=None, key_engine=None, ver=None, mac="valid", flag_auth=None, flag_priv=None, enc=None,
@@ -90,10 +91,12 @@ class Agent:
             cipher = cfg.priv if has_priv else "aes"
             b4 = (boots & 0xFFFFFFFF).to_bytes(4, "big")
             t4 = (time & 0xFFFFFFFF).to_bytes(4, "big")
+            self.npad += 1
+            style = ["zero", "pkcs", "ff", "mixed"][self.npad % 4]
             if len(privp) == 8:
-                ct = rx.usm_encrypt(cipher, kp[:16], privp, b4, t4, scoped)
+                ct = rx.usm_encrypt(cipher, kp[:16], privp, b4, t4, scoped, pad_style=style)
             else:
-                ct = rx.usm_encrypt(cipher, kp[:16], (privp + bytes(8))[:8], b4, t4, scoped)
+                ct = rx.usm_encrypt(cipher, kp[:16], (privp + bytes(8))[:8], b4, t4, scoped, pad_style=style)
             data = rc.tlv(0x04, ct)
         flags = (1 if flag_auth else 0) | (2 if flag_priv else 0) | flags_extra
         authp = b"" if mac == "absent" else bytes(12)
